@@ -39,7 +39,7 @@ def run(ctx, scale=1):
                          'box/prism/pyramid/octahedron/tetrahedron)} × both argument orders; vertex/face order shuffled; the flat is built through features of '
                          'the body (vertex, edge point, face point, interior point, outside point; face plane, supporting plane, plane through an edge); '
                          'non-trivial = non-empty exact intersection')
-    ctx.extra['unproved'] = ['that every body stored by the constructor meets ExactHyp is not a theorem: it is judged per body by the Lean procedure exactHypB (proved sound)']
+    ctx.extra['unproved'] = ['none under the stated hypotheses; that a concrete face list is that of a Valid body without coplanar neighbours is judged per body by the Lean procedure exactHypB (proved sound), see hypotheses_* in the distribution']
     total = ctx.n(2500, 80000) * scale
     cases = []
     for part in core.pmap(work, core.chunks(ctx, total, per=100)):
